@@ -52,6 +52,7 @@ _STATS = re.compile(r"^(\d+) states generated, (\d+) distinct states found")
 _DEPTH = re.compile(r"^The depth of the complete state graph search is (\d+)")
 _VIOL = re.compile(r"^Error: (?:Invariant|Action property|Temporal property|Property) (\S+) is violated")
 _VIOL2 = re.compile(r"^Error: Temporal properties were violated")
+_VIOL3 = re.compile(r"^Error: The invariant of (\S+) is equal to FALSE")     # a constant-level invariant
 _COV = re.compile(r"^<(\w+) line \d+, col \d+ to line \d+, col \d+ of module (\w+)(?: \([\d ]+\))?>: (\d+):(\d+)")
 _SIMSTATS = re.compile(r"^The number of states generated: (\d+)")
 
@@ -228,6 +229,11 @@ def run(module: str, cfg: Path, *, wd: Path, workers: int | str = 16, env: dict 
                 res.ok = False
                 res.violated.append(m.group(1))
                 in_trace = True
+                continue
+            m = _VIOL3.match(line)
+            if m:
+                res.ok = False
+                res.violated.append(m.group(1))
                 continue
             if _VIOL2.match(line):
                 res.ok = False
